@@ -598,6 +598,12 @@ func pickT(l, r Value) types.Type {
 }
 
 func (sc *specCtx) equal(l, r Value) Term {
+	if l.isSlice() && len(r.L) == 1 {
+		return Eq(l.base(), IntLit(0)) // comparison with nil
+	}
+	if r.isSlice() && len(l.L) == 1 {
+		return Eq(r.base(), IntLit(0))
+	}
 	if l.isSlice() && r.isSlice() {
 		// slice header equality (same view)
 		return And(Eq(l.base(), r.base()), Eq(l.off(), r.off()), Eq(l.slen(), r.slen()))
